@@ -450,7 +450,10 @@ Next == \/ AddParam \/ CloseSig \/ StartCall \/ AddArg \/ StartRun
 (***************************************************************************)
 InProperty(c) == Cardinality(UnionPos(c.call)) <= 1       \* the property speaks about at most one union argument
 
-PropertyHolds == stage = "done" => (InProperty(case) => RefOK(case, m.res) \/ DevClass(case) # "")
+\* the named deviation only excuses the clause it is about
+Excused(c, clause) == clause = "AnyNeverSelectsOne" /\ DevClass(c) # ""
+PropertyHolds == stage = "done" =>
+    (InProperty(case) => LET clause == RefClause(case, m.res) IN clause = "ok" \/ Excused(case, clause))
 PropertyHoldsStrict == stage = "done" => (InProperty(case) => RefOK(case, m.res))
 
 \* the machine and its operator form agree (the trace specification uses the operator)
